@@ -200,6 +200,7 @@ class Check:
 
     def case(self, desc, nontrivial=True, sample=None):
         self.evaluations += 1
+        self.last_case = desc
         if nontrivial:
             self.nontrivial.add(desc if isinstance(desc, str) else json.dumps(desc, sort_keys=True, default=str))
         if sample is not None and len(self.samples) < 6:
